@@ -45,6 +45,15 @@ def fresh_spec(text: str, pieces: bool = True, **kw):
         random.setstate(st)
 
 
+def prewarm(text: str) -> None:
+    """Fill the ANTLR parse-tree memo for every statement of ``text`` without building a spec
+    object (used before forking children that will all need the same statements)."""
+    import fandango.language.parse.parse_spec as ps
+
+    for f in split_pieces(text):
+        ps.parse_tree(f.name, f.read())
+
+
 def cached_spec(text: str, **kw):
     """A per-worker shared spec object, for simulators that only read its grammar rules."""
     key = text + repr(sorted(kw.items()))
